@@ -271,7 +271,11 @@ struct Coord {
         if (pl.size() > 2 && pl[0] == 'E' && pl[1] == ' ') { R.epoch = atoi(std::string(pl.data() + 2, pl.size() - 2).c_str()); R.icolls = 0; }
         reply(r, out); return true;
       case OP_GATE: R.gate_t0 = t; R.gate_base = (h.a[0] == 1 && h.a[1] >= 0 && h.a[1] < n) ? rk[h.a[1]].delivered : 0; return false;
-      case OP_ISEND: { icoll_idle = 0; auto m = std::make_shared<Msg>(); m->id = next_msg++; m->comm = h.a[0]; m->src = r; m->dst = comms[h.a[0]].members[h.a[1]]; m->tag = h.a[2]; m->sync = h.a[3]; m->data = pl; m->eager = (int)rng.below(100) < eager_pct; m->sreq = h.a[4]; m->t_enq = t;
+      case OP_ISEND: { icoll_idle = 0;
+        if (h.a[1] < 0 || h.a[1] >= (int)comms[h.a[0]].members.size()) {   // MPI_ERR_RANK: a real MPI aborts the job
+          L("invalid-rank r=%d comm=%d dest=%d", r, h.a[0], h.a[1]); if (verdict == "ok") verdict = "invalid-rank: r" + std::to_string(r) + " sends to rank " + std::to_string(h.a[1]) + " of a communicator of " + std::to_string(comms[h.a[0]].members.size());
+          reply(r, out); return true; }
+        auto m = std::make_shared<Msg>(); m->id = next_msg++; m->comm = h.a[0]; m->src = r; m->dst = comms[h.a[0]].members[h.a[1]]; m->tag = h.a[2]; m->sync = h.a[3]; m->data = pl; m->eager = (int)rng.below(100) < eager_pct; m->sreq = h.a[4]; m->t_enq = t;
         auto q = std::make_shared<Req>(); q->owner = r; q->id = h.a[4]; q->kind = 0; q->smsg = m; R.reqs[q->id] = q; chan[{m->comm, {m->src, m->dst}}].push_back(m);
         L("isend r=%d dst=%d comm=%d msg=%d bytes=%zu sync=%d eager=%d data=%s", r, m->dst, m->comm, m->id, pl.size(), (int)m->sync, (int)m->eager, hex(pl).c_str()); reply(r, out); return true; }
       case OP_IRECV: { auto q = std::make_shared<Req>(); q->owner = r; q->id = h.a[3]; q->kind = 1; q->comm = h.a[0]; q->src = h.a[1]; q->tag = h.a[2]; q->cap = (uint64_t)h.a[4] | ((uint64_t)h.a[5] << 31); R.reqs[q->id] = q;
